@@ -98,10 +98,11 @@ def _body_pcn(K, as_list):
             num, den = z3.ToReal(num), z3.ToReal(den)
         g = got.term
         g = z3.ToReal(g) if g.sort() == z3.IntSort() else g
-        claims = [g * den == num]
-        if ints:
-            claims += [g >= 0, g <= 1]
-        return (z3.And(*claims), f"pc_n returned {got}")
+        eq = E.prove_any([g == num / den, g * den == num])
+        if eq is not True:
+            return (eq, f"pc_n returned {got}")
+        claims = [g >= 0, g <= 1] if ints else []
+        return (z3.And(*claims) if claims else True, f"pc_n returned {got}")
     return body
 
 
@@ -109,10 +110,15 @@ def _replay_pcn(K, as_list):
     def replay(inputs):
         import numpy as np
         from pyrepseq import stats
-        c = [int(inputs[f"c{i}"]) for i in range(K)]
-        got = stats.pc_n(list(c) if as_list else np.array(c))
+        from vlib.smt import from_model
+        c = [from_model(inputs[f"c{i}"]) for i in range(K)]
+        if all(x.denominator == 1 for x in c):
+            c = [int(x) for x in c]
+            got = stats.pc_n(list(c) if as_list else np.array(c))
+        else:          # counts were relaxed to reals (K >= 4): evaluate the real function exactly on rationals
+            got = stats.pc_n(list(c) if as_list else np.array(c, dtype=object))
         N = sum(c)
-        want = Fraction(sum(x * (x - 1) for x in c), N * (N - 1))
+        want = Fraction(sum(x * (x - 1) for x in c)) / Fraction(N * (N - 1))
         return abs(float(got) - float(want)) <= 1e-9, f"pc_n({c}) = {got!r}, expected {want}"
     return replay
 
@@ -281,6 +287,9 @@ def conditions(tier):
                              budget=200, models=M, bounds=f"free Unicode strings of lengths {shape} (NumPy model)"))
     out.append(Condition("C02/pc2/strs/len=1,1/1,1", _body_strs((1, 1), (1, 1)), _replay_strs((1, 1), (1, 1)), budget=200, models=M,
                          bounds="2 x 2 free one-letter strings"))
+    for sa, sb in [((1,), (2,)), ((2,), (1, 2)), ((1, 2), (2, 3))]:
+        out.append(Condition(f"C02/pc2/strs/len={','.join(map(str, sa))}/{','.join(map(str, sb))}", _body_strs(sa, sb), _replay_strs(sa, sb),
+                             budget=300, models=M, bounds=f"two samples of free strings with different lengths {sa} / {sb}"))
     T = [
         ("2x1", ((1,), (1,))), ("3x1", ((1,), (1,), (1,))), ("2x2", ((1, 1), (1, 1))), ("2x2sep", ((2, 1), (1, 2))),
         ("3x2", ((1, 1), (1, 1), (1, 1))), ("2x3", ((1, 1, 1), (1, 1, 1))),
@@ -296,6 +305,8 @@ def conditions(tier):
     for mode in ("pc", "pc_joint"):
         out.append(Condition(f"C02/table2/{mode}/2x1-1x1", _body_table(((1,), (1,)), mode, ((1,),)), _replay_table(((1,), (1,)), mode, ((1,),)),
                              budget=300, models=M, bounds="two tables 2x1 and 1x1"))
+        out.append(Condition(f"C02/table2/{mode}/1x1-1x1long", _body_table(((1,),), mode, ((2,),)), _replay_table(((1,),), mode, ((2,),)),
+                             budget=300, models=M, bounds="two one-cell tables, the second cell longer than the first"))
         out.append(Condition(f"C02/table2/{mode}/1x2-2x2", _body_table(((1, 1),), mode, ((1, 1), (1, 1))),
                              _replay_table(((1, 1),), mode, ((1, 1), (1, 1))), budget=300, models=M, bounds="two tables 1x2 and 2x2"))
     if tier == "thorough":
